@@ -160,6 +160,49 @@ def mnemonic_variants(rng, words: list[str]):
 
 
 # ------------------------------------------------------------------------------------------------
+# from_mnemonic sequences in one process
+# ------------------------------------------------------------------------------------------------
+
+def mnemonic_sequences(ctx, cs, report):
+    """Consecutive Key.from_mnemonic calls in one process that share some of (mnemonic, passphrase, email) and differ in the rest
+    (same mnemonic + passphrase / other email; same email / other passphrase; email and passphrase swapped; a split of the same
+    concatenation, which legitimately gives the same key; a repetition of the first call; list vs str input): every result is
+    compared with the independent PBKDF2 derivation — a result must not depend on the calls made before."""
+    from pytezos.crypto.key import Key
+    rng = ctx.rng
+    for nwords in ((12, 24) if not ctx.thorough else (12, 15, 18, 21, 24, 12, 24)):
+        words = valid_mnemonic(rng, nwords)
+        other = valid_mnemonic(rng, nwords)
+        text = ' '.join(words)
+        curve = rng.choice([b'ed', b'sp', b'p2'])
+        pA, pB = rng.choice([('pw', 'pw2'), ('', 'x'), ('secret', 'Secret')])
+        eA, eB = rng.choice([('a@b.c', 'b@b.c'), ('', 'e@x'), ('é@x', 'e@x')])
+        steps = [(text, pA, eA), (text, pA, eB), (text, pB, eB), (text, pB, eA), (text, eA, pA), (text, pA, eA),
+                 (' '.join(other), pA, eA), (text, pA + eA[:1], eA[1:]), (text, '', eA + pA), (text, pA, eA)]
+        done = []
+        for i, (mn, pw, em) in enumerate(steps):
+            as_list = i % 3 == 1
+            arg = mn.split(' ') if as_list else mn
+            ok, k = lib.call(Key.from_mnemonic, arg, passphrase=pw, email=em, curve=curve)
+            ref_pub = ck.ref_public_point(curve, ck.ref_mnemonic_secret(mn, pw, em))
+            done.append({'mnemonic': mn, 'passphrase': pw, 'email': em, 'as_list': as_list,
+                         'public_point': k.public_point.hex() if ok else repr(k), 'independent': None if ref_pub is None else ref_pub.hex()})
+            ctx.case(('fm-seq', mn, pw, em, i), nontrivial=ok, kind=f'from_mnemonic-sequence:step{i}:{"ok" if ok else "fails"}')
+            if ref_pub is not None and not (ok and k.public_point == ref_pub):
+                report(f'from_mnemonic call {i + 1} of a sequence in one process differs from the independent derivation '
+                       f'(mnemonic / passphrase / email partly shared with earlier calls: the result depends on history)',
+                       {'curve': curve.decode(), 'sequence': done,
+                        'repro': 'in one process: ' + '; '.join(
+                            f"Key.from_mnemonic({d['mnemonic']!r}, passphrase={d['passphrase']!r}, email={d['email']!r}, curve=b'{curve.decode()}').public_point.hex()"
+                            for d in done)})
+                break
+        # the same shape under the recorder for the stateless model (A): fresh mnemonic so that nothing above is shared
+        w2 = valid_mnemonic(rng, nwords)
+        for pw, em in ((pA, eA), (pA, eB), (pB, eB)):
+            a_from_mnemonic(cs, ' '.join(w2), pw, em, True, curve, 'sequence')
+
+
+# ------------------------------------------------------------------------------------------------
 # run
 # ------------------------------------------------------------------------------------------------
 
@@ -173,7 +216,7 @@ def run(ctx: lib.Ctx) -> None:
                 'ASCII, multi-byte UTF-8 incl. astral, bytes, lone surrogate) with random salts, import with the right / wrong / missing passphrase and of '
                 'damaged texts (checksum, truncation, foreign prefix, re-labelled payload); mnemonics of 12..24 words: valid, one word / one bit changed, '
                 'order changed, unknown word, wrong count, spacing and normalisation variants; from_mnemonic with str and list input x passphrase x email x '
-                'validate x curve. non-trivial = the operation succeeded or the text has >= 12 words; distinct = distinct (operation, arguments).')
+                'validate x curve; sequences of from_mnemonic calls in one process sharing part of (mnemonic, passphrase, email), each compared with an independent derivation. non-trivial = the operation succeeded or the text has >= 12 words; distinct = distinct (operation, arguments).')
     ctx.assumptions.append(
         'native cryptography (key derivation of libsodium / libsecp256k1 / fastecdsa / py_ecc, blake2b, sha256, pbkdf2, secretbox, base58check, the mnemonic '
         "package's NFKD normalisation, word list and to_seed) is trusted: the theorems assume of it exactly the laws `store_laws` / `b58_laws`; in the "
@@ -352,6 +395,7 @@ def run(ctx: lib.Ctx) -> None:
                 a_from_mnemonic(cs, bad_words, '', '', True, curve, 'order-changed')
                 a_from_mnemonic(cs, ' '.join(bad_words), 'pw', '', False, curve, 'order-changed-novalidate')
             a_from_mnemonic(cs, words, '', '', True, rng.choice([b'xx', b'']), 'unknown-curve')
+    mnemonic_sequences(ctx, cs, report)
     for text in ['', ' ', 'abandon', 'abandon ' * 11 + 'about', 'abandon ' * 12, ('zoo ' * 11 + 'wrong'), ('zoo ' * 23 + 'vote'), 'legal winner thank year wave sausage worth useful legal winner thank yellow']:
         acc = a_validate(cs, text.strip(' ') if text.strip(' ') else text, 'fixed')
 
